@@ -113,8 +113,16 @@ def run_call(R, C, md, args, rets, driver, rng, repro):
     """One request/response. Returns after judging."""
     B, W, ir = C.B, C.W, C.ir
     kind = C.kind
+    # the same values written the way other toolkits write them (what the document denotes under the schema does not change)
+    how = rng.choice(((), (), (), ('pad',), ('indent',), ('comments',), ('cdata',), ('pad', 'indent', 'comments', 'cdata', 'pi'), ('indent', 'pi')))
+    repro = dict(repro, written=list(how))
+    W.codec.pad = 'pad' in how
     try:
         body_el = W.request_element(md, args)
+        W.codec.pad = False
+        if how:
+            refxml.vary_document(rng, body_el, how)
+            R.count('requests_written_differently')
     except refxml.NotConformant as e:
         R.skip('value not expressible under the published schema: %s' % str(e)[:60])
         return
